@@ -57,3 +57,15 @@ func (c *Counter) VState() (bits uint64, ptrSet bool) {
 	return c.state.bits.Load(), c.ptr.count != nil
 }
 func (c *Counter) VExtra() uint64 { return c.state.load().extra() }
+
+// VStacks (C15) returns, for every counter the stack counter has created so
+// far, the program counters it was created for and the counter itself.
+func (c *StackCounter) VStacks() (pcs [][]uintptr, ctrs []*Counter) {
+	c.mu.Lock()
+	defer c.mu.Unlock()
+	for _, s := range c.stacks {
+		pcs = append(pcs, append([]uintptr(nil), s.pcs...))
+		ctrs = append(ctrs, s.counter)
+	}
+	return pcs, ctrs
+}
